@@ -76,7 +76,7 @@ theorem setNode_scalar (el : Node) (hk : el.sch.kind = .integer ∨ el.sch.kind 
 theorem construct_scalar (m : Schema) (hm : ScalarSchema m) (raw : Raw) (parent : Option Nat) (key : Str)
     (next : Nat) (v : Val) (u : Str) (ok : Bool) (ha : adaptScalar m.kind raw = some (v, u, ok)) :
     ∃ w, construct m raw parent key next = (.ok w, next + 1) ∧ sig w = .sc v u ∧
-      w.hdr = (next, parent, m, key) ∧ w.kids = [] := by
+      w.hdr = (next, parent, m, key, none, none) ∧ w.kids = [] := by
   have hb : (blank m parent key next) = (.mk { id := next, parent := parent, key := key } m [], next + 1) := by
     cases m with
     | mk info dflt subs =>
